@@ -476,7 +476,9 @@ class Impl(object):
         return [[n, self.to_val(ft, a, problems)] for (n, ft), a in zip(fields, args)]
 
     # val -> native instance (for object_to_simple_dict)
-    def from_val(self, t, v, elem=False):
+    def from_val(self, t, v, elem=False, pool=None):
+        """pool (a dict): equal-valued objects of one class are built once and SHARED by identity - the
+        same Python instance standing at several positions of the graph (home is work, [old, x, old])"""
         k = v[0]
         if k == 'N':
             return None
@@ -485,10 +487,17 @@ class Impl(object):
         if k == 'L':
             return [int(x) if t['leaf'] == 'i' else x for x in v[1]]
         if k == 'A':
-            return [self.from_val(t, x, True) for x in v[1]]
+            return [self.from_val(t, x, True, pool) for x in v[1]]
+        key = None
+        if pool is not None:
+            key = (id(self.cls(t)), json.dumps(v, sort_keys=True))
+            if key in pool:
+                return pool[key]
         inst = self.cls(t)()
         for (n, ft), (_, fv) in zip(t['fields'], v[1]):
-            setattr(inst, n, self.from_val(ft, fv))
+            setattr(inst, n, self.from_val(ft, fv, False, pool))
+        if key is not None:
+            pool[key] = inst
         return inst
 
 
@@ -715,7 +724,22 @@ def corr_flatten(check, impl, tier):
         if rng.random() < 0.3:       # also values the notation cannot spell (empty lists, all-None objects)
             sv = loosen(sv, fields, rng)
         v = compact(sv)
-        inst = impl.from_val(top, v)
+        # a third of the graphs hold one instance at several positions: arrays of objects get a repeated
+        # element and every equal-valued object of one class is the same Python instance
+        shared = rng.random() < 0.34
+        if shared:
+            def repeat(x):
+                if x[0] == 'A' and len(x[1]) >= 2 and x[1][0][0] == 'O':
+                    i, j = rng.sample(range(len(x[1])), 2)
+                    x[1][j] = json.loads(json.dumps(x[1][i]))
+                if x[0] == 'A':
+                    for y in x[1]:
+                        repeat(y)
+                if x[0] == 'O':
+                    for _, y in x[1]:
+                        repeat(y)
+            repeat(v)
+        inst = impl.from_val(top, v, pool={} if shared else None)
         prot = SimpleDictDocument(hier_delim=delim)
         try:
             d = prot.object_to_simple_dict(impl.cls(top), inst, subinst_eater=lambda p, x, t: p.to_unicode(t, x))
@@ -991,7 +1015,22 @@ def oracle_flat_roundtrip(check, impl, tier):
         top = {'k': 'obj', 'arr': False, 'style': 'A', 'cid': -g.cid - 1, 'fields': fields}
         sv = g.topval(fields, True, ascii_only=rng.random() < 0.6)
         v = compact(sv)
-        inst = impl.from_val(top, v)
+        # a third of the graphs hold one instance at several positions: arrays of objects get a repeated
+        # element and every equal-valued object of one class is the same Python instance
+        shared = rng.random() < 0.34
+        if shared:
+            def repeat(x):
+                if x[0] == 'A' and len(x[1]) >= 2 and x[1][0][0] == 'O':
+                    i, j = rng.sample(range(len(x[1])), 2)
+                    x[1][j] = json.loads(json.dumps(x[1][i]))
+                if x[0] == 'A':
+                    for y in x[1]:
+                        repeat(y)
+                if x[0] == 'O':
+                    for _, y in x[1]:
+                        repeat(y)
+            repeat(v)
+        inst = impl.from_val(top, v, pool={} if shared else None)
         prot = SimpleDictDocument(hier_delim=delim)
         d = prot.object_to_simple_dict(impl.cls(top), inst, subinst_eater=lambda p, x, t: p.to_unicode(t, x))
         pairs = []
